@@ -248,6 +248,19 @@ PLANS["C11"] = Plan(
                  "see DESIGN.md)"],
 )
 
+_WRAP_ENC = [E2 + ":ImprovedBottomLeftEncoding2.__init__", E2 + ":ImprovedBottomLeftEncoding2.decode",
+             E1 + ":ImprovedBottomLeftEncoding1.decode"]
+_WRAP_OBJ = [OB + "bin_count_and_empty:BinCountAndEmpty.__init__", OB + "bin_count_and_empty:BinCountAndEmpty.evaluate",
+             OB + "bin_count_and_small:BinCountAndSmall.__init__", OB + "bin_count_and_small:BinCountAndSmall.evaluate",
+             OB + "bin_count_and_last_small:BinCountAndLastSmall.evaluate", OB + "bin_count_and_last_small:BinCountAndLastSmall.__init__"]
+_WRAP_TTP = [ER + ":Errors.__init__", ER + ":Errors.evaluate"]
+PLANS["C01"].functions += _WRAP_ENC
+PLANS["C02"].functions += _WRAP_OBJ
+PLANS["C07"].functions += _WRAP_TTP
+PLANS["C07"].lemmas += ["even_prod"]
+PLANS["C13"].functions += _WRAP_ENC + _WRAP_OBJ + _WRAP_TTP + ["moptipyapps.tsp.fea1p1_revn:TSPFEA1p1revn.solve"]
+PLANS["C13"].lemmas += ["even_prod", "path_split", "path_frame", "path_left", "path_rev", "path_bound", "tour_le_ub"]
+
 PLANS["C14"] = Plan(
     "C14", "proof",
     functions=[E1 + ":__move_down", E1 + ":__move_left", E1 + ":_decode",
